@@ -213,13 +213,22 @@ def link_reloc(ctx, objs, out):
     return out
 
 
+import threading
+_hdr_lock = threading.Lock()
+
+
 def patched_header_dir(ctx, burst=4):
     """Scratch copy of intel-ipsec-mb.h with IMB_MAX_BURST_SIZE reduced (ring of 2*burst slots).
     Asserts that exactly one line differs from the real header."""
     d = os.path.join(ctx.scratch, 'inc_burst%d' % burst)
-    if os.path.exists(d):
-        return d
-    os.makedirs(d)
+    with _hdr_lock:
+        if os.path.exists(os.path.join(d, 'intel-ipsec-mb.h')):
+            return d
+        os.makedirs(d, exist_ok=True)
+        return _patched_header_dir(d, burst)
+
+
+def _patched_header_dir(d, burst):
     src = open(os.path.join(LIB, 'intel-ipsec-mb.h')).read().split('\n')
     n = 0
     for i, l in enumerate(src):
@@ -333,6 +342,9 @@ def pool_map(fn, items, workers=None):
                 res[i] = fu.result()
             except Inconclusive as e:
                 res[i] = e
+            except Exception as e:  # a crashed worker is an inconclusive result, never a pass
+                import traceback
+                res[i] = Inconclusive('worker crashed: ' + traceback.format_exc()[-500:])
     return res
 
 
